@@ -2,6 +2,7 @@ package godi
 
 import (
 	"context"
+	"errors"
 	"fmt"
 	"reflect"
 	"strconv"
@@ -305,14 +306,10 @@ func (sc *collection) doBuild(ctx context.Context) (Provider, error) {
 
 	// Phase 6: Create singletons with context propagation
 	if err := p.createAllSingletonsWithContext(ctx); err != nil {
-		// Clean up partially created provider
-		closeErr := p.Close()
-		if closeErr != nil {
-			return nil, &BuildError{
-				Phase:   "cleanup",
-				Details: "failed to clean up partially created provider",
-				Cause:   closeErr,
-			}
+		// Clean up partially created provider. If that fails as well, the
+		// failure that stopped the build is still what is reported first
+		if closeErr := p.Close(); closeErr != nil {
+			err = errors.Join(err, fmt.Errorf("failed to clean up partially created provider: %w", closeErr))
 		}
 
 		return nil, &BuildError{
@@ -325,13 +322,8 @@ func (sc *collection) doBuild(ctx context.Context) (Provider, error) {
 	// Phase 7: Run the root scope's initialization functions. They may depend
 	// on singletons, so this happens after the singletons exist.
 	if err := p.rootScope.runInitializers(); err != nil {
-		closeErr := p.Close()
-		if closeErr != nil {
-			return nil, &BuildError{
-				Phase:   "cleanup",
-				Details: "failed to clean up partially created provider",
-				Cause:   closeErr,
-			}
+		if closeErr := p.Close(); closeErr != nil {
+			err = errors.Join(err, fmt.Errorf("failed to clean up partially created provider: %w", closeErr))
 		}
 
 		return nil, &BuildError{
